@@ -2012,7 +2012,7 @@ def _inv_flag(h, invs):
 
 # ---------------------------------------------------------------- form arithmetic of the model against an independent composition
 
-def dirichlet_compose_ref(f1, f2, D):
+def dirichlet_compose_ref(f1, f2, D, raw=False):
     """independent of Cohen 5.4.7: search the united middle coefficient B (B = b1 mod 2a1, B = b2 mod 2a2,
     B^2 = D mod 4a1a2, gcd(a1, a2, B) = 1) by stepping through the residues, then reduce (a1a2, B, .). None when no
     such B exists (gcd(a1, a2, (b1+b2)/2) > 1: the forms are not concordant after translation)."""
@@ -2022,7 +2022,7 @@ def dirichlet_compose_ref(f1, f2, D):
     for k in range(a2 + 1):
         B = b1 + 2 * a1 * k
         if (B - b2) % (2 * a2) == 0 and (B * B - D) % m == 0 and math.gcd(math.gcd(a1, a2), B) == 1:
-            return form_reduce(a1 * a2, B, (B * B - D) // m)
+            return (a1 * a2, B, (B * B - D) // m) if raw else form_reduce(a1 * a2, B, (B * B - D) // m)
     return None
 
 
@@ -2059,6 +2059,20 @@ def _form_followups(case, ans):
             out.append((f"cg_compose {show(x)} {show(y)}", show(ref)))
     conj = (f1[0], -f1[1], f1[2])
     out.append((f"cg_compose {show(f1)} {show(conj)}", show(form_reduce(*form_principal(D)))))
+    # composite first coefficients sharing the prime of f1: gcd(a1, a2) = p with gcd(a1, a2, s) = 1 (second xgcd of the
+    # algorithm), and with the conjugate on one side gcd(a1, a2, s) = p > 1 on PRIMITIVE forms; expected through coprime
+    # united forms only: (f1 f2)(f1 f3) = (f1 f1)(f2 f3), (f1 f2)(conj f1 f3) = f2 f3
+    if len({f1[0], f2[0], f3[0]}) == 3:
+        u12 = dirichlet_compose_ref(f1, f2, D, raw=True)
+        u13 = dirichlet_compose_ref(f1, f3, D, raw=True)
+        uc3 = dirichlet_compose_ref(conj, f3, D, raw=True)
+        r11, r23 = dirichlet_compose_ref(f1, f1, D), dirichlet_compose_ref(f2, f3, D)
+        if u12 and u13 and r11 and r23 and r11[0] < 5000:
+            want = dirichlet_compose_ref(r11, r23, D)
+            if want is not None:
+                out.append((f"cg_compose {show(u12)} {show(u13)}", show(want)))
+        if u12 and uc3 and r23:
+            out.append((f"cg_compose {show(u12)} {show(uc3)}", show(r23)))
     # an unreduced member of the class of f1 * f2: (a1 a2, B, C) translated and swapped
     a, b, c = f1[0] * f2[0], None, None
     ref = dirichlet_compose_ref(f1, f2, D)
@@ -2229,12 +2243,14 @@ THEOREMS = ["Ymq.C18." + t for t in (
     "legendre_large_prime_panics legendre_panics_small_moduli legendre_composite_debug_assert "
     # Props/C18Group: the driver's form arithmetic (Form.compose = Cohen 5.4.7 + xgcd + reduce) is Gauss composition
     "xgcd_correct compose_raw_identity compose_is_composition compose_dirichlet compose_concordant "
-    "reduce_reduced reduce_reduced_fuel reduce_mem_reducedForms relation_genuine_conductor add_equal_larges_panics run_none_of_equal_larges store_total_iff_distinct emitted_relations_genuine").split()] + [
+    "reduce_reduced reduce_reduced_fuel reduce_mem_reducedForms relation_genuine_conductor add_equal_larges_panics run_none_of_equal_larges store_total_iff_distinct emitted_relations_genuine "
+    "reduced_unique reduce_eq_iff_pequiv class_representative_unique").split()] + [
     "Ymq.C18C19.reported_invariants_multiply"]
 HYPOTHESES = [
-    "classNumber_is_reduced_count (definition, not proved): the class number h(D) of the imaginary quadratic order of discriminant D "
-    "is the number of reduced primitive positive definite forms of discriminant D (Gauss); `classNumber D` is DEFINED as that count, "
-    "theorem reduced_enum proves the enumeration exact",
+    "classNumber_is_reduced_count: `classNumber D` is DEFINED as the number of reduced primitive positive definite forms of discriminant D; "
+    "reduced_enum proves the enumeration exact and (Props/C18Group) class_representative_unique proves that every proper equivalence class of primitive "
+    "positive definite forms of discriminant D contains exactly one of them (reduce_reduced + reduced_unique), so classNumber D is the FORM class number; "
+    "that the form class number is the class number of the quadratic order (forms <-> ideals) stays a classical fact that is not formalised",
     "emit_hom takes the triviality of every INPUT relation as its hypothesis (phi kills the inputs); emitted_relations_genuine (Props/C18Group) composes "
     "emit_hom_map with the conclusion `Genuine D r` of relation_genuine: if every added relation is genuine so is every emitted one; relation_genuine (Props/C18Forms) proves it "
     "for the relations built by relationOf in the form `the prime forms of the entries compose to the principal form` (explicit Dirichlet "
@@ -2247,9 +2263,6 @@ HYPOTHESES = [
     "(Props/C18Group) from the conductor-prime rejection, under: D odd or D/4 = 2, 3 mod 4 (classgroup() works with D/4 when D/4 = 1 mod 4), every odd "
     "candidate prime with p^2 | D is in the conductor list, and the NAMED hypotheses that no prime of A and no large prime has its square dividing D "
     "(select_siqs_factors is not modelled; a conductor prime above the factor base is invisible to the code)",
-    "reduced_unique (NOT PROVED): two properly equivalent reduced forms are equal (uniqueness half of Gauss' theorem). reduce_reduced / "
-    "reduce_mem_reducedForms prove existence (the model's fuel suffices, the output is reduced and enumerated by classNumber); so equality of reduced "
-    "forms is a sufficient condition for `same class`, which is the direction the driver's re-check of a relation line uses",
     "relation_genuine.hafs / haprod: A is the product of the listed odd primes of A, each with a correct stored root (select_siqs_factors is not modelled)",
     "invariants_multiply takes `diag.prod = h` (the Smith form output, property C19) as its hypothesis; C18C19.reported_invariants_multiply "
     "discharges it with C19 snf_diag and takes instead two facts about the state returned by SmithNormalForm::reduce that C19 does not prove: "
@@ -2289,8 +2302,9 @@ UNMODELLED = [
     "identifying that with `the product of the classes is trivial` in the abstract class group is classical and not formalised. The model's "
     "Form.compose (Cohen 5.4.7 with the model's xgcd, used by the driver to re-check relation lines) IS proved a composition (Props/C18Group: compose_is_composition "
     "= discriminant + bilinear Gauss identity for all positive definite inputs, compose_dirichlet / compose_concordant = Dirichlet composition up to proper "
-    "equivalence when gcd(a1, a2, (b1+b2)/2) = 1), Form.reduce with the model's fuel ends in a reduced form (reduce_reduced); not proved: for gcd > 1 on PRIMITIVE "
-    "forms that the result is the class product (needs well-definedness on classes), and uniqueness of the reduced form in a class; "
+    "equivalence when gcd(a1, a2, (b1+b2)/2) = 1), Form.reduce with the model's fuel ends in a reduced form (reduce_reduced); and the reduced form of a class is unique "
+    "(reduced_unique, reduce_eq_iff_pequiv: equal reduced forms <=> same class); not proved: for gcd > 1 on PRIMITIVE forms that the result is the class product, and in general "
+    "that composition is well defined on classes; "
     "every relation line of the sampled runs is still re-checked by independent form arithmetic (Python) and by the model's form arithmetic (Lean driver)",
     "classgroup::smoothness_bias (f64) and the release-profile value of legendre on composite moduli (never passed by the callers); "
     "arith::Dividers beyond new/mod_uint/modu63 as used by legendre",
